@@ -319,10 +319,7 @@ def pair_resend(R, cfgd, conns, table, pid, rng, spare="cx"):
             bound = {}
     if not cands:
         return [], R
-    # every kind of command gets its share of the duplicates, however rare it is in the history
-    kinds = sorted({R[i][0]["m"]["type"] for (i, _) in cands})
-    kind = rng.choice(kinds)
-    pool = [x for x in cands if R[x[0]][0]["m"]["type"] == kind]
+    pool = list(cands)
     # ... and commands on an object whose name is the empty string come first, most of the time
     def awkward(x):
         e1, o1 = R[x[0]]
@@ -332,7 +329,7 @@ def pair_resend(R, cfgd, conns, table, pid, rng, spare="cx"):
         return (e1["m"]["type"] in ("claim", "release") and table.get("name", {}).get(n) == "") or \
                (e1["m"]["type"] in ("open", "close") and table.get("mbox", {}).get(i) == "")
     odd = [x for x in cands if awkward(x)]
-    if odd and rng.random() < 0.6:
+    if odd and rng.random() < 0.5:
         pool = odd
     j, (app, side) = rng.choice(pool)
     e0 = R[j][0]
